@@ -471,3 +471,15 @@ func singleTerm(fd protoreflect.FieldDescriptor, v protoreflect.Value) string {
 	}
 	return "?"
 }
+
+// PrefixedIsShort reports whether the prefixed spelling of the short name is itself the short name of an
+// option (enum Mode {MODE_MODE_X, MODE_X}: "MODE_X" is the short name of the first and the prefixed
+// spelling of the second; the short name as written takes precedence, so the second has no prefixed form).
+func (s *Schema) PrefixedIsShort(name string) bool {
+	for _, o := range s.Options {
+		if o.Name == s.Prefix+name {
+			return true
+		}
+	}
+	return false
+}
